@@ -549,6 +549,11 @@ func NewKeyFromString(key string) (*ExtendedKey, error) {
 		if err != nil {
 			return nil, err
 		}
+		// btcec.ParsePubKey reduces an X coordinate >= P modulo P instead
+		// of rejecting it.
+		if new(big.Int).SetBytes(keyData[1:]).Cmp(btcec.S256().P) >= 0 {
+			return nil, errors.New("pubkey X parameter is >= to P")
+		}
 	}
 
 	return NewExtendedKey(version, keyData, chainCode, parentFP, depth,
